@@ -105,6 +105,11 @@ type Violation struct {
 	Idx      int            `json:"idx"`
 	Kind     string         `json:"kind"`
 	Detail   map[string]any `json:"detail"`
+	// HistShards > 0: the violation shows only after the earlier cases of its worker ran in the same process
+	// (state kept in package-level variables, pools or caches of the engine); the replay executes the cases
+	// HistShard, HistShard+HistShards, ... up to Idx in one fresh process.
+	HistShard  int `json:"hist_shard,omitempty"`
+	HistShards int `json:"hist_shards,omitempty"`
 }
 
 type workerState struct {
@@ -242,6 +247,7 @@ type workerOpts struct {
 	shards  int
 	from    int // first case index to consider (inclusive)
 	only    int // run just this case (-1 = all of the shard)
+	upto    int // last case index to run (inclusive; -1 = no limit)
 	out     string
 	verbose bool
 }
@@ -326,6 +332,9 @@ func workerMain(o workerOpts) int {
 		for idx := o.shard; idx < total; idx += o.shards {
 			if idx < o.from {
 				continue
+			}
+			if o.upto >= 0 && idx > o.upto {
+				break
 			}
 			run(idx)
 			if len(w.violations) >= violationCap {
